@@ -150,12 +150,14 @@ func runC01(st *ev.Stats, h History) string {
 		return msg
 	}
 	if ev.Thorough() && len(h.Blocks) <= 6 {
-		if msg := report("concurrent-queries", runFed(h, blocks, false, true)); msg != "" {
-			// schedule dependent: re-run to see whether it reproduces
-			if msg2 := report("concurrent-queries", runFed(h, blocks, false, true)); msg2 == "" {
-				st.Note("a divergence under concurrent queries did not reproduce: " + msg)
+		if ok, why, _ := compareTraces(ta, runFed(h, blocks, false, true)); !ok {
+			// schedule dependent: only a divergence that shows again on a second run is reported (its replay file would
+			// otherwise demonstrate nothing); one that does not is recorded in the evidence
+			if msg := report("concurrent-queries", runFed(h, blocks, false, true)); msg != "" {
+				return msg
 			}
-			return msg
+			st.Class("unreproduced-divergence-under-concurrent-queries")
+			st.Note("a divergence under concurrent queries did not reproduce on the second run: " + why)
 		}
 	}
 	// separate OS process (different GOMAXPROCS, later wall clock)
